@@ -124,7 +124,8 @@ class Cluster:
                     tm = q["time"]
                     o = self.latest(t["topic"], p) if tm == -1 else self.earliest(t["topic"], p) if tm == -2 \
                         else self.by_time(t["topic"], p, tm)
-                    parts.append({"partition": p, "error": 0, "offsets": [o]})
+                    # None: the broker has no segment at or before that time (a 0.8-0.10 broker answers an empty offset list)
+                    parts.append({"partition": p, "error": 0, "offsets": [] if o is None else [o]})
             topics.append({"topic": t["topic"], "partitions": parts})
         return {"topics": topics}
 
